@@ -223,7 +223,16 @@ func (d *tmDriver) behave(self *mtimer) {
 		)
 		if t == self && self.repeating && self.state == 1 {
 			// a new schedule started from inside the repeating timer's own callback is not constrained by
-			// the property (the implementation is between two repetitions there)
+			// the property (the implementation is between two repetitions there) — but whatever it did, a
+			// Cancel that follows in the same invocation must end every schedule: nothing fires afterwards
+			list = append(list, beh{"schedule10s-then-cancel " + t.name, func() {
+				d.x.Note("ScheduleOnce(%s,10s) [unjudged] then Cancel", t.name)
+				_ = t.t.ScheduleOnce(tLong, func() {
+					d.x.Fail("timer/fired-after-cancel-or-twice", "%s: a schedule made inside the repeating callback and cancelled in the same invocation fired", t.name)
+				})
+				d.cancel(t)
+				t.state = 0
+			}})
 			continue
 		}
 		list = append(list,
